@@ -72,6 +72,28 @@ Theorem C08_accept_erase_E1 : forall kinds g0 f0 ctx sp ss e sel s r ov s',
       wf s'' /\ head s'' v = Some (bty_head t).
 Proof. exact EraseAccept.accept_erase_E1. Qed.
 
+(* the same for a block checked under an environment E0 -- the body of a function whose parameters have base types: E0
+   gives their types; in the state their classes are good (Complete1.good: a base head, every stored constraint
+   satisfied), have these types, and they are no type names (env_good) *)
+Theorem C08_accept_erase_E1_env : forall kinds g0 f0 ctx sp E0 ss e sel s r ov s',
+  frag_stmts1 (map fst E0) ss e = true -> NoDup (defs ss) -> wf s -> env_good E0 s -> (forall x, In x (defs ss) -> fresh s x) ->
+  expression_block (gfix g0) (afix kinds (gfix g0) f0) sp (to_block1 sp ss e) ctx s = TyGraph.Ok ((r, ov), s') ->
+  forall g f, (max_depth ss e < S f)%nat ->
+    exists t c v s'',
+      ov = Some c /\ head s' c = Some (bty_head t) /\
+      expression_block (gfix (S (S (S (S g))))) (afix kinds (gfix (S (S (S (S g))))) (S (S f))) sp
+                       (to_block1 sp (erase1 sel 0 ss) e) ctx s = TyGraph.Ok ((None, Some v), s'') /\
+      wf s'' /\ head s'' v = Some (bty_head t).
+Proof. exact EraseAccept.accept_erase_E1_env. Qed.
+
+Example C08_env_good_def : forall E s,
+  env_good E s = (forall x t, tlookup E x = Some t ->
+                    (good s (N.succ_pos x) /\ head s (N.succ_pos x) = Some (bty_head t)) /\ existsb (N.eqb x) (tnames s) = false).
+Proof. reflexivity. Qed.
+Example C08_good_def : forall s i,
+  good s i = (exists r n, root s i r n /\ okhead (nty n) = true /\ forall c, In c (ncons n) -> cok s i c).
+Proof. reflexivity. Qed.
+
 (* the other direction of "optional": an accepted block stays accepted when the inferred type of the value is written as
    the annotation of any subset of its definitions (annotate1; an annotation already there is replaced by it) *)
 Theorem C08_accept_annotate_E1 : forall kinds g0 f0 ctx sp ss e sel s r ov s',
@@ -182,6 +204,7 @@ Proof. vm_compute. reflexivity. Qed.
 Print Assumptions C08_checker_does_not_rewrite.
 Print Assumptions C08_accept_erase_E1.
 Print Assumptions C08_typed_accepted_E1.
+Print Assumptions C08_accept_erase_E1_env.
 Print Assumptions C08_accept_annotate_E1.
 Print Assumptions C08_erase_block.
 Print Assumptions C08_fresh_after_init.
